@@ -1,6 +1,7 @@
 package rules
 
 import (
+	"fmt"
 	"go/token"
 	"go/types"
 
@@ -172,4 +173,96 @@ func handleConnLike(fn *ssa.Function) *ssa.Parameter {
 		}
 	}
 	return nil
+}
+
+// c08ReadKeepsRemainder: a connection type that serves Read from a buffer it holds must drop exactly the bytes it
+// copied to the caller. The selector peeks with a fixed 1024-byte buffer; if a Read with a short buffer discards the rest
+// (or a re-slice by another count), the service chosen afterwards never sees the bytes beyond the peek.
+func c08ReadKeepsRemainder(c *Ctx) {
+	p := c.P
+	n := 0
+	for _, nt := range p.NamedTypes() {
+		if nt.Obj().Pkg() == nil {
+			continue
+		}
+		rd := p.Method(RelPkg(nt.Obj().Pkg().Path()), nt.Obj().Name(), "Read")
+		if rd == nil || rd.Blocks == nil || len(rd.Params) != 2 || !HasMethod(types.NewPointer(nt), "RemoteAddr") {
+			continue
+		}
+		recv, buf := rd.Params[0], rd.Params[1]
+		// copy(b…, recv.F…)
+		for _, call := range Calls(rd) {
+			cv, ok := call.(*ssa.Call)
+			if !ok {
+				continue
+			}
+			bi, ok := cv.Call.Value.(*ssa.Builtin)
+			if !ok || bi.Name() != "copy" || bufBase(cv.Call.Args[0]) != ssa.Value(buf) {
+				continue
+			}
+			src := cv.Call.Args[1]
+			for {
+				if sl, ok := src.(*ssa.Slice); ok {
+					src = sl.X
+					continue
+				}
+				break
+			}
+			ld, ok := isLoad(src)
+			if !ok {
+				continue
+			}
+			fa, ok := ld.X.(*ssa.FieldAddr)
+			if !ok || c15Root(fa.X) != ssa.Value(recv) {
+				continue
+			}
+			if _, isSlice := ld.Type().Underlying().(*types.Slice); !isSlice {
+				continue
+			}
+			n++
+			key := fmt.Sprintf("%s.Read serves %s", TypeKey(nt), fieldNameOf(fa))
+			// the stores to that field that can follow this copy
+			reach := InstrReachFrom(rd, cv, nil, nil)
+			bad, stores := "", 0
+			for _, b := range rd.Blocks {
+				for _, in := range b.Instrs {
+					st, ok := in.(*ssa.Store)
+					if !ok || !reach(st) {
+						continue
+					}
+					fa2, ok := st.Addr.(*ssa.FieldAddr)
+					if !ok || fa2.Field != fa.Field || c15Root(fa2.X) != ssa.Value(recv) {
+						continue
+					}
+					stores++
+					sl, ok := st.Val.(*ssa.Slice)
+					okS := ok && sl.High == nil && sl.Low == ssa.Value(cv)
+					if okS {
+						l2, isL := isLoad(sl.X)
+						fa3, isF := (ssa.Value)(nil), false
+						if isL {
+							var f3 *ssa.FieldAddr
+							f3, isF = l2.X.(*ssa.FieldAddr)
+							if isF {
+								fa3 = f3
+								okS = f3.Field == fa.Field && c15Root(f3.X) == ssa.Value(recv)
+							}
+						}
+						_ = fa3
+						if !isL || !isF {
+							okS = false
+						}
+					}
+					if !okS {
+						bad = "after copying n bytes to the caller the buffer becomes " + RenderN(st.Val, 3) + " (at " + p.InstrPos(st) + ") instead of " + fieldNameOf(fa) + "[n:]"
+					}
+				}
+			}
+			if stores == 0 {
+				bad = "the buffer is never advanced after the copy"
+			}
+			c.Check(bad == "", "read-drops-only-copied", key, p.InstrPos(cv), "the buffer is advanced by exactly the copied count", bad+": bytes that did not fit into the caller's buffer (the selector peeks 1024 bytes) are lost or replayed, so the chosen service does not read the client's stream intact")
+		}
+	}
+	c.Check(n >= 2, "read-drops-only-copied", "buffer-serving Read methods found", "-", fmt.Sprint(n), "expected the datagram pseudo-connection and the peek connection to serve Read from a held buffer")
 }
